@@ -127,3 +127,14 @@
         assert!(kib as u64 * 1024 + 1023 >= rounded as u64 + 65536);
         assert!(kib as u64 <= rounded as u64 / 1024 + 40 + 64);
     }
+
+    /// contract stub for LZMA2Reader::new used by container-level harnesses that never drive the payload reader:
+    /// storage zeroed except `inner`; must be forgotten, never dropped.
+    pub(crate) fn lzma2_reader_new_zeroed<R: Read>(inner: R, _dict_size: u32, _preset: Option<&[u8]>) -> LZMA2Reader<R> {
+        unsafe {
+            let mut m = core::mem::MaybeUninit::<LZMA2Reader<R>>::zeroed();
+            let p = m.as_mut_ptr();
+            core::ptr::addr_of_mut!((*p).inner).write(inner);
+            m.assume_init()
+        }
+    }
